@@ -112,9 +112,59 @@ def s_send_res(r) -> str:
     return hx(r)
 
 
+DEFAULTS = {"send": ["F", "0", "F"], "write": ["F", "F"], "resend": ["F"], "read": ["N"], "fifo": ["F", "N"],
+            "clear_status_flags": ["T", "T", "T"], "interrupt_config": ["T", "T", "T"], "set_dynamic_payloads": ["N"],
+            "get_dynamic_payloads": ["0"], "set_payload_length": ["N"], "get_payload_length": ["0"], "address": ["-1"]}
+
+
+NET_DEFAULTS = {"write": ["56"], "multicast": ["N"], "check_connection": ["3", "F"], "lookup_node_id": ["N"],
+                "lookup_address": ["0"], "release_address": ["0"]}
+
+
+def expand_defaults(toks, table=None):
+    """`dflt <method> <required args>` -> the explicit call with the documented default values"""
+    return toks[1:] + (table or DEFAULTS)[toks[1]] if toks and toks[0] == "dflt" else toks
+
+
+def call_with_defaults(d, t):
+    """`dflt <method> <required args>`: the real call with every optional parameter omitted"""
+    m = t[0]
+    if m == "send":
+        buf = parse_buf(t[1])
+        return f"{s_send_res(d.send(buf))} buf={hx(buf)}"
+    if m == "write":
+        buf = parse_buf(t[1])
+        return f"{sb(d.write(buf))} buf={hx(buf)}"
+    if m == "resend":
+        return s_send_res(d.resend())
+    if m == "read":
+        r = d.read()
+        return "N" if r is None else hx(r)
+    if m == "fifo":
+        return str(int(d.fifo()))
+    if m in ("clear_status_flags", "interrupt_config"):
+        getattr(d, m)()
+        return "ok"
+    if m == "set_dynamic_payloads":
+        d.set_dynamic_payloads(pb(t[1]))
+        return "ok"
+    if m == "set_payload_length":
+        d.set_payload_length(int(t[1]))
+        return "ok"
+    if m == "get_dynamic_payloads":
+        return sb(d.get_dynamic_payloads())
+    if m == "get_payload_length":
+        return str(d.get_payload_length())
+    if m == "address":
+        return hx(d.address())
+    raise Infra("no default form of " + m)
+
+
 def rf24_call(d, toks):
     """returns the result string (exceptions propagate)"""
     t = toks
+    if t[0] == "dflt":
+        return call_with_defaults(d, t[1:])
     if t[0] == "get":
         a = t[1]
         v = getattr(d, a)
